@@ -10,13 +10,17 @@ META = {
                     "eamove / inoscan / blkmove / ss2reserve: kernel-level steps of the data-moving stages with the I/O, allocator and bitmap "
                     "layers replaced by recording stubs (bitmaps: one byte per block, harness/C08/bytemap.h); inoscan delivers ONE inode per scan; "
                     "blkmove cuts mark_table_blocks (symbolic metadata set) and reserve_sparse_super2_last_group (decided separately in ss2reserve); "
-                    "ext2fs_allocate_group_table is assumed to place tables inside the new size (and outside an already marked backup footprint)"],
+                    "ext2fs_allocate_group_table is assumed to place tables inside the new size (and outside an already marked backup footprint)",
+                    "dirref: the directory iterator presents 2 symbolic entries of one directory to the real callback; sumstats: bitmaps as one byte "
+                    "per cluster / inode; itmove: device of 16 blocks with one symbolic tag byte per block (block all-zero == tag 0), one group"],
     "outside": ["THIS IS A THIN SLICE: no harness moves a block or an inode. File preservation (path, content, attributes) and "
                 "e2fsck-consistency of the resized file system are whole-tool statements and are not decided",
                 "the stages behind the stubs of errflag except the kernels named in the harness list: block_mover (copying, allocation order), "
                 "the block walk itself (ext2fs_block_iterate3 + process_block on real extent trees / indirect blocks), the growth branch of "
                 "blocks_to_move beyond 'succeeds, stays inside the file system' (mark_fs_metablock bookkeeping, needed_blocks there), "
-                "mark_table_blocks, inode_ref_fix (directory entries), fix_ea_inode_refs, move_itables, "
+                "mark_table_blocks, fix_ea_inode_refs, the real directory iterator under inode_ref_fix (ext2fs_dblist_dir_iterate / "
+                "ext2fs_process_dir_block: which entries it presents, rewriting and checksumming of the block), move_itables with more than one group, "
+                "bigalloc or failing I/O, "
                 "move_bg_metadata, zero_high_bits_in_inodes, fix_resize_inode, fix_orphan_file_inode, fix_sb_journal_backup, "
                 "resize2fs_calculate_summary_stats, clear/reserve_sparse_super2_last_group, fix_uninit_block_bitmaps",
                 "crash points INSIDE a stage (e.g. between the copy of a block and the rewrite of its reference) and the order of data writes "
@@ -207,7 +211,7 @@ HARNESSES = [
          cut_statics={"resize/resize2fs.c": ["mark_table_blocks"]},
          configs=[{"MOVE": 1, "_unwindset": it_uw(1, 4)}, {"MOVE": 2, "_unwindset": it_uw(1, 4)}, {"MOVE": 0, "IPB": 1, "_unwindset": it_uw(1, 1)}],
          cbmc_flags=["--max-field-sensitivity-array-size", "4096"],
-         unwind=4, witness_per_config=True, backends=["default"],
+         unwind=4, backends=["default"],
          bound="1 group, inode table of 4 blocks of 1 KiB (one symbolic tag byte per block, rest zero), device of 16 blocks with arbitrary content, "
                "old and new table anywhere on it (all overlaps); direction of the move per query"),
 ]
